@@ -202,3 +202,9 @@ M("id-tunnel-connect-url-default-port", "C10", A + "http_proxy.py", "           
 M("tl-trio-timeout-scope-outside-try", "C06", "httpcore/_backends/trio.py", "            try:\n                with trio.fail_after(timeout_or_inf):\n                    await ssl_stream.do_handshake()\n            except Exception as exc:  # pragma: nocover\n                await self.aclose()\n                raise exc",
   "            with trio.fail_after(timeout_or_inf):\n                try:\n                    await ssl_stream.do_handshake()\n                except Exception as exc:  # pragma: nocover\n                    await self.aclose()\n                    raise exc", "C06.R5")
 M("tl-anyio-reset-is-eof", "C02", "httpcore/_backends/anyio.py", "                except anyio.EndOfStream:  # pragma: nocover\n                    return b\"\"", "                except (anyio.EndOfStream, anyio.ClosedResourceError):  # pragma: nocover\n                    return b\"\"", "C02.R7")
+M("sup-map-exceptions-swallows-unmatched", "C15", "httpcore/_exceptions.py", "                raise to_exc(exc) from exc\n        raise  # pragma: nocover", "                raise to_exc(exc) from exc", "C15.R7")
+M("sup-map-exceptions-catches-base", "C15", "httpcore/_exceptions.py", "    except Exception as exc:  # noqa: PIE786\n        for from_exc", "    except BaseException as exc:  # noqa: PIE786\n        for from_exc", "C15.R7")
+M("sup-trace-exit-suppresses", "C15", "httpcore/_trace.py", "                info = {\"exception\": exc_value}\n                self.trace(f\"{self.name}.failed\", info)\n", "                info = {\"exception\": exc_value}\n                self.trace(f\"{self.name}.failed\", info)\n                return isinstance(exc_value, GeneratorExit)\n", "C15.R7")
+M("c01-h2-closed-after-stream-close", "C01", A + "http2.py", "        self._state = HTTPConnectionState.CLOSED\n        await self._network_stream.aclose()\n\n    # Wrappers around network", "        await self._network_stream.aclose()\n        self._state = HTTPConnectionState.CLOSED\n\n    # Wrappers around network", "C01.R10")
+M("sup-direct-connection-test-before-lock", "C08,C04", A + "connection.py", "            async with self._request_lock:\n                if self._connection is None:\n                    stream = await self._connect(request)\n",
+  "            if self._connection is None:\n                async with self._request_lock:\n                    stream = await self._connect(request)\n", None)
